@@ -1,5 +1,366 @@
 import RzmqModel.Model.Routing
-/-! Helper lemmas. -/
+/-! Helper lemmas for C11 (ROUTER identity map refinement, envelope algebra). -/
 namespace Rzmq
+
+-- ---------------------------------------------------------------------------------------------
+-- association-list lookups
+-- ---------------------------------------------------------------------------------------------
+
+section AssocList
+variable {κ ν : Type} [BEq κ] [LawfulBEq κ] [DecidableEq κ]
+
+omit [LawfulBEq κ] [DecidableEq κ] in
+theorem amGet_nil (k : κ) : amGet ([] : List (κ × ν)) k = none := rfl
+
+theorem amGet_cons (k' : κ) (v' : ν) (m : List (κ × ν)) (k : κ) :
+    amGet ((k', v') :: m) k = if k' = k then some v' else amGet m k := by
+  by_cases h : k' = k <;> simp [amGet, h]
+
+theorem amGet_amInsert (m : List (κ × ν)) (k : κ) (v : ν) (k' : κ) :
+    amGet (amInsert m k v) k' = if k = k' then some v else amGet m k' := by
+  induction m with
+  | nil => simp [amInsert, amGet_cons, amGet_nil]
+  | cons e m ih =>
+    obtain ⟨a, b⟩ := e
+    simp only [amInsert]
+    by_cases h : a = k
+    · subst h
+      simp only [BEq.rfl, if_true, amGet_cons]
+      by_cases h2 : a = k' <;> simp [h2]
+    · have : (a == k) = false := by simpa using h
+      simp only [this, Bool.false_eq_true, if_false, amGet_cons, ih]
+      by_cases h2 : a = k'
+      · subst h2
+        have : ¬ k = a := fun e => h e.symm
+        simp [this]
+      · simp [h2]
+
+theorem amGet_amRemove (m : List (κ × ν)) (k k' : κ) :
+    amGet (amRemove m k) k' = if k = k' then none else amGet m k' := by
+  induction m with
+  | nil => simp [amRemove, amGet_nil]
+  | cons e m ih =>
+    obtain ⟨a, b⟩ := e
+    simp only [amRemove] at ih ⊢
+    by_cases h : a = k
+    · subst h
+      simp only [List.filter_cons, BEq.rfl, Bool.not_true, Bool.false_eq_true, if_false, ih, amGet_cons]
+      by_cases h2 : a = k' <;> simp [h2]
+    · have : (a == k) = false := by simpa using h
+      simp only [List.filter_cons, this, Bool.not_false, if_true, amGet_cons, ih]
+      by_cases h2 : a = k'
+      · subst h2; simp [Ne.symm h]
+      · simp [h2]
+
+theorem amGet_mem (m : List (κ × ν)) (k : κ) (v : ν) (h : amGet m k = some v) : (k, v) ∈ m := by
+  induction m with
+  | nil => simp [amGet_nil] at h
+  | cons e m ih =>
+    obtain ⟨a, b⟩ := e
+    rw [amGet_cons] at h
+    by_cases h2 : a = k
+    · subst h2; simp at h; subst h; simp
+    · simp [h2] at h; exact List.mem_cons_of_mem _ (ih h)
+
+end AssocList
+
+-- ---------------------------------------------------------------------------------------------
+-- ROUTER identity map: refinement invariant
+-- ---------------------------------------------------------------------------------------------
+
+/-- implementation state `m` represents specification state `sp` -/
+def RouterInv (m : RouterMap) (sp : List (Nat × (Ident × PeerInfo))) : Prop :=
+  (∀ id info, amGet m.fwd id = some info ↔ ∃ pipe, amGet sp pipe = some (id, info)) ∧
+  (∀ pipe id, amGet m.rev pipe = some id ↔ ∃ info, amGet sp pipe = some (id, info)) ∧
+  (∀ p1 p2 id i1 i2, amGet sp p1 = some (id, i1) → amGet sp p2 = some (id, i2) → p1 = p2)
+
+theorem RouterInv.init : RouterInv {} [] := by
+  refine ⟨?_, ?_, ?_⟩ <;> simp [amGet_nil]
+
+/-- what "no collision" means semantically -/
+theorem noCollision_of_any (sp : List (Nat × (Ident × PeerInfo))) (pipe : Nat) (id : Ident)
+    (h : (sp.any fun e => e.1 != pipe && e.2.1 == id) = false) :
+    ∀ p i, amGet sp p = some (id, i) → p = pipe := by
+  intro p i hg
+  have hm := amGet_mem sp p (id, i) hg
+  rw [List.any_eq_false] at h
+  have := h _ hm
+  simpa using this
+
+theorem RouterInv.insert (m : RouterMap) (sp : List (Nat × (Ident × PeerInfo))) (pipe : Nat) (id : Ident)
+    (info : PeerInfo) (hinv : RouterInv m sp)
+    (hnc : ∀ p i, amGet sp p = some (id, i) → p = pipe) :
+    RouterInv
+      { fwd := amInsert (match amGet m.rev pipe with
+                  | some oldId => if oldId != id then amRemove m.fwd oldId else m.fwd
+                  | none => m.fwd) id info,
+        rev := amInsert m.rev pipe id }
+      (amInsert sp pipe (id, info)) := by
+  obtain ⟨hA, hB, hC⟩ := hinv
+  refine ⟨?_, ?_, ?_⟩
+  · intro id' info'
+    simp only [amGet_amInsert]
+    by_cases hid : id = id'
+    · subst hid
+      simp only [if_true]
+      constructor
+      · intro h
+        simp only [Option.some.injEq] at h
+        exact ⟨pipe, by simp [h]⟩
+      · rintro ⟨p, hp⟩
+        by_cases hpp : pipe = p
+        · simpa [hpp] using hp
+        · simp only [hpp, if_false] at hp
+          exact absurd (hnc p _ hp).symm hpp
+    · simp only [hid, if_false]
+      cases hold : amGet m.rev pipe with
+      | none =>
+        simp only
+        rw [hA]
+        have hnone : ∀ x, amGet sp pipe ≠ some x := by
+          intro x hx
+          have := (hB pipe x.1).2 ⟨x.2, hx⟩
+          simp [hold] at this
+        constructor
+        · rintro ⟨p, hp⟩
+          refine ⟨p, ?_⟩
+          have : pipe ≠ p := by intro e; subst e; exact hnone _ hp
+          simp [this, hp]
+        · rintro ⟨p, hp⟩
+          by_cases hpp : pipe = p
+          · simp [hpp, hid] at hp
+          · exact ⟨p, by simpa [hpp] using hp⟩
+      | some oldId =>
+        obtain ⟨oinfo, ho⟩ := (hB pipe oldId).1 hold
+        simp only
+        by_cases hoi : oldId = id
+        · subst hoi
+          simp only [bne_self_eq_false, Bool.false_eq_true, if_false]
+          rw [hA]
+          constructor
+          · rintro ⟨p, hp⟩
+            have : pipe ≠ p := by
+              intro e; subst e; rw [ho] at hp; simp at hp; exact hid hp.1
+            exact ⟨p, by simp [this, hp]⟩
+          · rintro ⟨p, hp⟩
+            by_cases hpp : pipe = p
+            · simp [hpp, hid] at hp
+            · exact ⟨p, by simpa [hpp] using hp⟩
+        · have hb : (oldId != id) = true := by simpa using hoi
+          simp only [hb, if_true, amGet_amRemove]
+          by_cases hoi' : oldId = id'
+          · subst hoi'
+            simp only [if_true]
+            constructor
+            · intro h; cases h
+            · rintro ⟨p, hp⟩
+              by_cases hpp : pipe = p
+              · simp [hpp, hid] at hp
+              · simp only [hpp, if_false] at hp
+                exact absurd (hC _ _ _ _ _ ho hp) hpp
+          · simp only [hoi', if_false]
+            rw [hA]
+            constructor
+            · rintro ⟨p, hp⟩
+              have : pipe ≠ p := by
+                intro e; subst e; rw [ho] at hp; simp at hp; exact hoi' hp.1
+              exact ⟨p, by simp [this, hp]⟩
+            · rintro ⟨p, hp⟩
+              by_cases hpp : pipe = p
+              · simp [hpp, hid] at hp
+              · exact ⟨p, by simpa [hpp] using hp⟩
+  · intro p id'
+    simp only [amGet_amInsert]
+    by_cases hpp : pipe = p
+    · simp [hpp]
+    · simp only [hpp, if_false]; exact hB p id'
+  · intro p1 p2 id' i1 i2
+    simp only [amGet_amInsert]
+    by_cases h1 : pipe = p1 <;> by_cases h2 : pipe = p2
+    · intros; omega
+    · subst h1
+      rw [if_pos rfl, if_neg h2]
+      intro e1 e2
+      simp only [Option.some.injEq, Prod.mk.injEq] at e1
+      rw [← e1.1] at e2
+      exact (hnc _ _ e2).symm
+    · subst h2
+      rw [if_pos rfl, if_neg h1]
+      intro e1 e2
+      simp only [Option.some.injEq, Prod.mk.injEq] at e2
+      rw [← e2.1] at e1
+      exact hnc _ _ e1
+    · simp only [h1, h2, if_false]
+      exact hC p1 p2 id' i1 i2
+
+/-- `RouterInv` only looks at the maps through `amGet` -/
+theorem RouterInv.congr (m m' : RouterMap) (sp : List (Nat × (Ident × PeerInfo)))
+    (hf : ∀ k, amGet m'.fwd k = amGet m.fwd k) (hr : ∀ k, amGet m'.rev k = amGet m.rev k)
+    (h : RouterInv m sp) : RouterInv m' sp := by
+  obtain ⟨hA, hB, hC⟩ := h
+  refine ⟨?_, ?_, hC⟩
+  · intro id info; rw [hf]; exact hA id info
+  · intro p id; rw [hr]; exact hB p id
+
+theorem RouterInv.updateIdentity (m : RouterMap) (sp : List (Nat × (Ident × PeerInfo))) (pipe : Nat)
+    (id : Ident) (uri : Nat) (s : Strat) (hinv : RouterInv m sp)
+    (hnc : ∀ p i, amGet sp p = some (id, i) → p = pipe) :
+    RouterInv (m.updateIdentity pipe id uri s) (amInsert sp pipe (id, { uri := uri, strat := s })) :=
+  RouterInv.insert m sp pipe id _ hinv hnc
+
+theorem RouterInv.addPeer (m : RouterMap) (sp : List (Nat × (Ident × PeerInfo))) (pipe : Nat)
+    (id : Ident) (uri : Nat) (hinv : RouterInv m sp)
+    (hnc : ∀ p i, amGet sp p = some (id, i) → p = pipe) :
+    RouterInv (m.addPeer id pipe uri) (amInsert sp pipe (id, { uri := uri, strat := .default })) := by
+  refine RouterInv.congr _ _ _ ?_ ?_ (RouterInv.insert m sp pipe id _ hinv hnc)
+  · intro k
+    simp only [RouterMap.addPeer]
+    cases amGet m.rev pipe with
+    | none => rfl
+    | some oldId =>
+      simp only
+      by_cases hoi : oldId = id
+      · subst hoi; simp
+      · have hb : (oldId != id) = true := by simpa using hoi
+        simp only [hb, if_true, amGet_amInsert, amGet_amRemove]
+        by_cases h1 : id = k
+        · subst h1; simp [hoi]
+        · simp [h1]
+  · intro k
+    simp only [RouterMap.addPeer]
+    cases amGet m.rev pipe with
+    | none => rfl
+    | some oldId => simp only; split <;> rfl
+
+theorem RouterInv.removeByPipe (m : RouterMap) (sp : List (Nat × (Ident × PeerInfo))) (pipe : Nat)
+    (hinv : RouterInv m sp) : RouterInv (m.removeByPipe pipe) (amRemove sp pipe) := by
+  obtain ⟨hA, hB, hC⟩ := hinv
+  simp only [RouterMap.removeByPipe]
+  cases hold : amGet m.rev pipe with
+  | none =>
+    have hnone : ∀ x, amGet sp pipe ≠ some x := by
+      intro x hx
+      have := (hB pipe x.1).2 ⟨x.2, hx⟩
+      simp [hold] at this
+    have hsame : ∀ p, amGet (amRemove sp pipe) p = amGet sp p := by
+      intro p
+      rw [amGet_amRemove]
+      by_cases hpp : pipe = p
+      · subst hpp
+        simp only [if_true]
+        cases h : amGet sp pipe with
+        | none => rfl
+        | some x => exact absurd h (hnone x)
+      · simp [hpp]
+    simp only
+    refine ⟨?_, ?_, ?_⟩
+    · intro id info; simp only [hsame]; exact hA id info
+    · intro p id; simp only [hsame]; exact hB p id
+    · intro p1 p2 id i1 i2; simp only [hsame]; exact hC p1 p2 id i1 i2
+  | some oldId =>
+    obtain ⟨oinfo, ho⟩ := (hB pipe oldId).1 hold
+    simp only
+    refine ⟨?_, ?_, ?_⟩
+    · intro id info
+      simp only [amGet_amRemove]
+      by_cases hoi : oldId = id
+      · subst hoi
+        simp only [if_true]
+        constructor
+        · intro h; cases h
+        · rintro ⟨p, hp⟩
+          by_cases hpp : pipe = p
+          · simp [hpp] at hp
+          · simp only [hpp, if_false] at hp
+            exact absurd (hC _ _ _ _ _ ho hp) hpp
+      · simp only [hoi, if_false]
+        rw [hA]
+        constructor
+        · rintro ⟨p, hp⟩
+          have : pipe ≠ p := by
+            intro e; subst e; rw [ho] at hp; simp at hp; exact hoi hp.1
+          exact ⟨p, by simp [this, hp]⟩
+        · rintro ⟨p, hp⟩
+          by_cases hpp : pipe = p
+          · simp [hpp] at hp
+          · exact ⟨p, by simpa [hpp] using hp⟩
+    · intro p id
+      simp only [amGet_amRemove]
+      by_cases hpp : pipe = p
+      · simp [hpp]
+      · simp only [hpp, if_false]; exact hB p id
+    · intro p1 p2 id i1 i2
+      simp only [amGet_amRemove]
+      by_cases h1 : pipe = p1
+      · simp [h1]
+      · by_cases h2 : pipe = p2
+        · simp [h2]
+        · simp only [h1, h2, if_false]; exact hC p1 p2 id i1 i2
+
+/-- removing a pipe does not disturb the routability of any identity other than the pipe's own -/
+theorem removeByPipe_lookup_other (m : RouterMap) (pipe : Nat) (id : Ident)
+    (hid : m.identityOfPipe pipe ≠ some id) : (m.removeByPipe pipe).lookup id = m.lookup id := by
+  simp only [RouterMap.identityOfPipe] at hid
+  simp only [RouterMap.removeByPipe, RouterMap.lookup]
+  cases hold : amGet m.rev pipe with
+  | none => rfl
+  | some oldId =>
+    simp only [amGet_amRemove]
+    have : oldId ≠ id := by intro e; subst e; exact hid hold
+    simp [this]
+
+-- ---------------------------------------------------------------------------------------------
+-- envelope algebra
+-- ---------------------------------------------------------------------------------------------
+
+theorem normFlags_cons_of_ne_nil (a : Frame) (l : List Frame) (h : l ≠ []) :
+    normFlags (a :: l) = { a with more := true } :: normFlags l := by
+  cases l with
+  | nil => exact absurd rfl h
+  | cons b l => rfl
+
+theorem clearLastMore_cons_of_ne_nil (a : Frame) (l : List Frame) (h : l ≠ []) :
+    clearLastMore (a :: l) = a :: clearLastMore l := by
+  cases l with
+  | nil => exact absurd rfl h
+  | cons b l => rfl
+
+theorem normFlags_ne_nil (l : List Frame) (h : l ≠ []) : normFlags l ≠ [] := by
+  match l with
+  | [] => exact absurd rfl h
+  | [f] => simp [normFlags]
+  | f :: g :: rest => simp [normFlags]
+
+theorem normFlags_idem : ∀ l : List Frame, normFlags (normFlags l) = normFlags l
+  | [] => rfl
+  | [f] => rfl
+  | f :: g :: rest => by
+    have ih := normFlags_idem (g :: rest)
+    have hne : normFlags (g :: rest) ≠ [] := normFlags_ne_nil _ (by simp)
+    rw [normFlags_cons_of_ne_nil f (g :: rest) (by simp), normFlags_cons_of_ne_nil _ _ hne, ih]
+
+theorem clearLastMore_normFlags : ∀ l : List Frame, clearLastMore (normFlags l) = normFlags l
+  | [] => rfl
+  | [f] => rfl
+  | f :: g :: rest => by
+    have ih := clearLastMore_normFlags (g :: rest)
+    have hne : normFlags (g :: rest) ≠ [] := normFlags_ne_nil _ (by simp)
+    rw [normFlags_cons_of_ne_nil f (g :: rest) (by simp), clearLastMore_cons_of_ne_nil _ _ hne, ih]
+
+theorem clearLastMore_of_normFlags_eq (l : List Frame) (h : normFlags l = l) : clearLastMore l = l := by
+  rw [← h, clearLastMore_normFlags]
+
+theorem map_payload_normFlags : ∀ l : List Frame, (normFlags l).map (·.payload) = l.map (·.payload)
+  | [] => rfl
+  | [f] => rfl
+  | f :: g :: rest => by
+    have ih := map_payload_normFlags (g :: rest)
+    rw [normFlags_cons_of_ne_nil f (g :: rest) (by simp), List.map_cons, ih]
+    rfl
+
+theorem isEmpty_eq_false_of_ne_nil {α : Type} (l : List α) (h : l ≠ []) : l.isEmpty = false := by
+  cases l with
+  | nil => exact absurd rfl h
+  | cons a l => rfl
 
 end Rzmq
